@@ -117,6 +117,45 @@ LLVMFuzzerTestOneInput(const uint8_t* data, size_t size)
     {
       ir::environment_sptr env(new ir::environment);
       std::istringstream in(doc);
+      // the root element decides which of the three entry points abidiff / abilint would use for this file
+      size_t r = 0;
+      while ((r = doc.find('<', r)) != std::string::npos && r + 1 < doc.size() && (doc[r + 1] == '?' || doc[r + 1] == '!'))
+	++r;
+      if (r != std::string::npos && doc.compare(r, 10, "<abi-instr") == 0)
+	{
+	  translation_unit_sptr tu = xml_reader::read_translation_unit_from_istream(&in, env.get());
+	  if (tu)
+	    {
+	      ++c.nontrivial;
+	      std::ostringstream out;
+	      xml_writer::write_context_sptr w = xml_writer::create_write_context(env.get(), out);
+	      xml_writer::write_translation_unit(*w, *tu, 0);
+	      comparison::diff_context_sptr dctxt(new comparison::diff_context);
+	      comparison::translation_unit_diff_sptr d = comparison::compute_diff(tu, tu, dctxt);
+	      if (d)
+		{
+		  std::ostringstream rep;
+		  d->report(rep);
+		}
+	    }
+	  return 0;
+	}
+      if (r != std::string::npos && doc.compare(r, 17, "<abi-corpus-group") == 0)
+	{
+	  corpus_group_sptr g = xml_reader::read_corpus_group_from_native_xml(&in, env.get());
+	  if (g)
+	    {
+	      ++c.nontrivial;
+	      comparison::diff_context_sptr dctxt(new comparison::diff_context);
+	      comparison::corpus_diff_sptr d = comparison::compute_diff(g, g, dctxt);
+	      if (d)
+		{
+		  std::ostringstream rep;
+		  d->report(rep);
+		}
+	    }
+	  return 0;
+	}
       xml_reader::read_context_sptr ctxt = xml_reader::create_native_xml_read_context(&in, env.get());
       corpus_sptr corp = xml_reader::read_corpus_from_input(*ctxt);
       if (corp)
